@@ -15,6 +15,7 @@ import (
 	"net/http/httptest"
 	"net/url"
 	"os"
+	"strconv"
 	"strings"
 	"sync"
 	"time"
@@ -98,7 +99,7 @@ func (e wsEnv) sexp() sexp.Node {
 		}
 		fr = sexp.T("frame", sexp.Str(e.Type), sexp.Str(e.ID), p)
 	}
-	return sexp.T("ws", sexp.Sym(e.Proto), sexp.Bool(!e.PreInit), fr)
+	return sexp.T("ws", sexp.Sym(e.Proto), sexp.Bool(!e.PreInit), fr, sexp.Str(e.Raw))
 }
 
 func startType(proto string) string {
@@ -144,6 +145,14 @@ type apiObs struct {
 	Completed bool
 	Resolvers string
 	Hooks     string
+	// the answer as it was on the wire
+	HasHTTP bool
+	CType   string // Content-Type header
+	CLen    int    // Content-Length header, -1 when absent
+	Body    []byte
+	HasWS   bool
+	Frames  [][]byte // the text frames received for the operation id, in order, byte for byte
+	Raws    [][]byte // the payload bytes of the data / next frames, as the harness cut them out
 }
 
 func (o apiObs) sexp() sexp.Node {
@@ -151,7 +160,20 @@ func (o apiObs) sexp() sexp.Node {
 	for _, p := range o.Payloads {
 		ps = append(ps, sexp.Str(p))
 	}
-	return sexp.T("obs", sexp.T(o.Kind, sexp.Int(o.Code)), sexp.L(ps...), sexp.Bool(o.Completed), sexp.Str(o.Resolvers), sexp.Str(o.Hooks))
+	wire := sexp.T("wire-none")
+	if o.HasHTTP {
+		wire = sexp.T("wire-http", sexp.Str(o.CType), sexp.Int(o.CLen), sexp.Str(string(o.Body)))
+	} else if o.HasWS {
+		var fs, rs []sexp.Node
+		for _, f := range o.Frames {
+			fs = append(fs, sexp.Str(string(f)))
+		}
+		for _, r := range o.Raws {
+			rs = append(rs, sexp.Str(string(r)))
+		}
+		wire = sexp.T("wire-ws", sexp.L(fs...), sexp.L(rs...))
+	}
+	return sexp.T("obs", sexp.T(o.Kind, sexp.Int(o.Code)), sexp.L(ps...), sexp.Bool(o.Completed), sexp.Str(o.Resolvers), sexp.Str(o.Hooks), wire)
 }
 
 type server struct {
@@ -198,6 +220,12 @@ func (s *server) serveHTTP(e httpEnv, feat bool) (o apiObs) {
 		return o
 	}
 	o.Kind, o.Code, o.Completed = "status", w.Code, true
+	o.HasHTTP, o.CType, o.CLen, o.Body = true, w.Header().Get("Content-Type"), -1, append([]byte(nil), w.Body.Bytes()...)
+	if cl := w.Header().Get("Content-Length"); cl != "" {
+		if n, err := strconv.Atoi(cl); err == nil {
+			o.CLen = n
+		}
+	}
 	if w.Code == 200 {
 		if c, ok := canonResponse(w.Body.Bytes()); ok {
 			o.Payloads = []string{c}
@@ -245,6 +273,7 @@ type wsMsg struct {
 	ID      string          `json:"id"`
 	Type    string          `json:"type"`
 	Payload json.RawMessage `json:"payload"`
+	Raw     []byte          `json:"-"` // the frame as received
 }
 
 func dialWS(httpURL, proto string, feat bool, doInit bool) *wsClient {
@@ -310,6 +339,7 @@ func (c *wsClient) read(d time.Duration) (wsMsg, int, error) {
 	if err := json.Unmarshal(p, &m); err != nil {
 		return wsMsg{}, 0, fmt.Errorf("server sent a frame that is not a message: %q", p)
 	}
+	m.Raw = p
 	return m, 0, nil
 }
 
@@ -317,6 +347,7 @@ type wsResult struct {
 	Kind      string // data, ignored, closed, timeout
 	Code      int
 	Payloads  [][]byte
+	Frames    [][]byte
 	Completed bool
 }
 
@@ -359,10 +390,13 @@ func (c *wsClient) exchange(raw string, id string, sentinelID string, async bool
 		switch {
 		case m.ID == id && id != "" && (m.Type == "data" || m.Type == "next"):
 			res.Payloads = append(res.Payloads, []byte(m.Payload))
+			res.Frames = append(res.Frames, m.Raw)
 		case m.ID == id && id != "" && m.Type == "complete":
 			res.Completed = true
+			res.Frames = append(res.Frames, m.Raw)
 		case m.ID == id && id != "":
 			res.Payloads = append(res.Payloads, []byte("unexpected-frame-type:"+m.Type))
+			res.Frames = append(res.Frames, m.Raw)
 		case m.ID == sentinelID && m.Type == "complete":
 			sentinelDone = true
 		}
@@ -404,6 +438,7 @@ func preInitExchange(httpURL, proto string, feat bool, raw, id string) (res wsRe
 	for _, m := range before {
 		if m.ID == id {
 			res.Payloads = append([][]byte{[]byte(m.Payload)}, res.Payloads...)
+			res.Frames = append([][]byte{m.Raw}, res.Frames...)
 			res.Kind = "data"
 		}
 	}
@@ -437,6 +472,7 @@ func (s *server) serveWS(e wsEnv, feat bool, async bool, caseNo int) (o apiObs) 
 	}
 	o.Resolvers, o.Hooks = s.rec.take()
 	o.Kind, o.Code, o.Completed = r.Kind, r.Code, r.Completed
+	o.HasWS, o.Frames, o.Raws = true, r.Frames, r.Payloads
 	for _, p := range r.Payloads {
 		if c, ok := canonResponse(p); ok {
 			o.Payloads = append(o.Payloads, c)
